@@ -223,6 +223,7 @@ func (st *chanState) canRecv() bool {
 
 // doSend performs an enabled send.
 func (st *chanState) doSend(v any) {
+	s().Tracef("doSend %s %v (buf %d, recvq %d)", st.name, v, len(st.buf), len(st.recvq))
 	if st.closed {
 		panic("send on closed channel")
 	}
@@ -241,6 +242,7 @@ func (st *chanState) doSend(v any) {
 
 // doRecv performs an enabled receive.
 func (st *chanState) doRecv() (any, bool) {
+	s().Tracef("doRecv %s (buf %d, sendq %d)", st.name, len(st.buf), len(st.sendq))
 	if len(st.buf) > 0 {
 		v := st.buf[0]
 		st.buf = st.buf[1:]
@@ -477,6 +479,7 @@ func (sl *Sel) Wait(hasDefault bool) int {
 		}
 	}
 	g.Yield("select", func() bool { return hasDefault || sl.fired >= 0 || len(ready()) > 0 })
+	g.Tracef("select resumes: fired=%d ready=%v default=%v", sl.fired, ready(), hasDefault)
 	if sl.fired >= 0 {
 		// a partner completed one of our cases while we were parked
 		unpark()
